@@ -5144,3 +5144,68 @@ func c08r19(c *Ctx, r *Report) {
 	}
 	r.floor("values carried into the next iteration's count", n, 2)
 }
+
+// c02r12: the matchers' contract says "the pattern is already normalised if normalize is true". The pattern
+// text and the flag are handed over together in two places — per term (parseTerms) and for the whole query
+// (BuildPattern, --no-extended) — and in both the text has to pass algo.NormalizeRunes wherever the flag can
+// be true (D43: the --no-extended branch kept the flag but not the normalisation; under smart-case the
+// capitals İ, Ⱥ, Ⱦ stayed in the pattern, the line's character was folded, and `fzf +x -f İ` did not find
+// `İstanbul`).
+func c02r12(c *Ctx, r *Report) {
+	l := c.L
+	r.rule("C02-R12", "E (sibling agreement: text and flag are produced together)", "P1",
+		"for every struct of package fzf into which a pattern text ([]rune field `text`) and a flag `normalize` are stored together, the stored text is computed from a call of algo.NormalizeRunes",
+		"a query containing a capital whose lower-case form is not in the accent table (İ, Ⱥ, Ⱦ) does not match lines containing that very character under --no-extended")
+	norm := l.Fn("algo", "NormalizeRunes")
+	if norm == nil {
+		r.unest("anchors", token.NoPos, nil, "anchor algo.NormalizeRunes", "cannot resolve")
+		return
+	}
+	n := 0
+	for _, fn := range l.AllFuncs() {
+		if fn.Blocks == nil || fn.Pkg != l.pkg("fzf") {
+			continue
+		}
+		type pair struct {
+			text  *ssa.Store
+			hasNm bool
+		}
+		byBase := map[ssa.Value]*pair{}
+		eachInstr(fn, func(in ssa.Instruction) {
+			st, ok := in.(*ssa.Store)
+			if !ok {
+				return
+			}
+			fld, base := fieldOf(st.Addr)
+			if fld == nil || base == nil {
+				return
+			}
+			if _, isAlloc := base.(*ssa.Alloc); !isAlloc {
+				return
+			}
+			if byBase[base] == nil {
+				byBase[base] = &pair{}
+			}
+			switch fld.Name() {
+			case "text":
+				if sl, ok := fld.Type().Underlying().(*types.Slice); ok && types.Identical(sl.Elem().Underlying(), types.Typ[types.Int32]) {
+					byBase[base].text = st
+				}
+			case "normalize":
+				if k, isK := st.Val.(*ssa.Const); !isK || k.Value == nil || k.Value.String() != "false" {
+					byBase[base].hasNm = true
+				}
+			}
+		})
+		for _, p := range byBase {
+			if p.text == nil || !p.hasNm {
+				continue
+			}
+			n++
+			normalised := dependsOnCall(p.text.Val, func(c2 *ssa.Call) bool { return callIs(c2.Common(), norm) })
+			r.check(normalised, fmt.Sprintf("%s:pattern text stored with a normalize flag #%d", relName(fn), n), p.text.Pos(), fn,
+				"the text passes algo.NormalizeRunes", "the text is stored next to a normalize flag that can be true but never passes algo.NormalizeRunes: the matchers fold the line and compare it with an unfolded pattern")
+		}
+	}
+	r.floor("(text, normalize) pairs handed to the matchers", n, 2)
+}
